@@ -468,7 +468,8 @@ Projection(st) ==
     n_code        |-> Count(S.code),
     n_pkce        |-> Cardinality({k \in DOMAIN S.pkce : S.pkce[k].present}),
     n_oidc        |-> Cardinality(S.oidc) + Cardinality(S.doidc),
-    n_par         |-> Cardinality({u \in DOMAIN S.par : S.par[u].present}) ]
+    n_par         |-> Cardinality({u \in DOMAIN S.par : S.par[u].present}),
+    n_jti         |-> Cardinality(S.jti) ]
 
 (* ======================================================================== *)
 (* Property predicates.  State invariants range over one state; the action  *)
